@@ -48,6 +48,33 @@ def sibling_bytes(case, rng):
     """a file with the same component table but other dimensions (or version): what an earlier read in the same process may have left in the header cache"""
     from .. import refenc
     sib = {"header": dict(case["header"]), "body": case["body"]}
+    if rng.random() < 0.35:
+        # the same length and the same byte SUMS (three consecutive bytes of a name changed by +1, −2, +1 — invisible to additive checksums such as Adler-32 — or two
+        # adjacent bytes swapped — invisible to a plain sum): whatever identifies a header must tell such headers apart
+        import copy as _c
+        comps = _c.deepcopy(case["header"]["components"])
+        done = False
+        for c in comps:
+            for key in ["name"] + list(range(len(c["points"]))):
+                raw = bytearray(bytes.fromhex(c["name"] if key == "name" else c["points"][key]))
+                i = next((i for i in range(len(raw) - 2) if all(0x41 <= b <= 0x79 for b in raw[i:i + 3]) and raw[i + 1] >= 0x43), None)
+                if i is not None:
+                    if rng.random() < 0.6:
+                        raw[i] += 1; raw[i + 1] -= 2; raw[i + 2] += 1
+                    elif raw[i] != raw[i + 1]:
+                        raw[i], raw[i + 1] = raw[i + 1], raw[i]
+                    else:
+                        continue
+                    if key == "name": c["name"] = raw.hex()
+                    else: c["points"][key] = raw.hex()
+                    done = True; break
+            if done: break
+        if done:
+            sib["header"]["components"] = comps
+            try:
+                return refenc.v02(sib)
+            except Exception:
+                return None
     if rng.random() < 0.7:
         sib["header"]["width"] = (case["header"]["width"] + 1 + rng.randrange(500)) % 65536
         sib["header"]["height"] = (case["header"]["height"] + 7) % 65536
